@@ -6,7 +6,7 @@ from pysym.harness import run_cases
 LEVEL = 'other'
 DEDUCTIVE = []          # contract modules run by engine P for this property
 FINISH = dict(rule='deductive: one obligation per path / table key; B: see run.bound entries of checks/b04.py',
-              explanation='T: compiled valence rules == independent re-derivation from the raw tables for all 118 element classes; B: exhaustive element x charge x radical x bond-multiset grid against the re-derivation, a textbook model and RDKit',
+              explanation='F: no memoised value read by this property\'s observables survives an edit it depends on (one obligation per covered mutator x cached key); P: calc_implicit/check_implicit for all 118 elements x charge -4..+4 x radical x every neighbour multiset (finite abstraction + execution of the real functions vs re-derivation from the raw tables); T: compiled valence rules == independent re-derivation from the raw tables for all 118 element classes; B: exhaustive element x charge x radical x bond-multiset grid against the re-derivation, a textbook model and RDKit',
               trusted_base=['CPython', 'oracles/o04_valence.py', 'RDKit valence model (one-directional, organic subset)'])
 replay = make_replay('C04')
 
